@@ -119,6 +119,20 @@ def support_obligations(ctx, prog, seen):
                           "`MONTH_DAYS[..month - 1]` can panic" % ", ".join(d[:50] for d in descs), loc)
 
 
+def sibling_obligations(ctx, prog):
+    """exceptions whose reason is a shape another property's rule checks: the same rule is run here under this check's name, so that breaking the shape is
+    reported by C14 itself and not only by the sibling (sunlit_fraction's `1 - blocked / rays` leans on the early exit for a window without sample
+    points [C12]; the unwraps of build_from_node_list lean on what generate_node_list pushes [C13])"""
+    from .c12 import check_exits
+    from .c13 import check_tree_element_shapes
+    sf = prog.method("types::model::Model", None, "sunlit_fraction")
+    n0 = len(ctx.instances)
+    check_exits(ctx, prog, sf, rule="c14.support|sunlit_fraction")
+    # only the two exits the C14 exception names belong to this property; the others are C12's own clauses
+    ctx.instances[n0:] = [i for i in ctx.instances[n0:] if i.key.endswith("|no-sample-points") or i.key.endswith("|fraction")]
+    check_tree_element_shapes(ctx, prog, rule="c14.support|node_list")
+
+
 def run(ctx):
     prog = ctx.prog
     inv = Inventory(prog, ctx.cg)
@@ -129,6 +143,7 @@ def run(ctx):
     ctx.floor("c14.panic", "classified may-panic sites", len(sites), 60)
     report_sites(ctx, "c14.panic", sites, C14_EXCEPTIONS, seen)
     support_obligations(ctx, prog, seen)
+    sibling_obligations(ctx, prog)
     nloops = report_loops(ctx, "c14.loop", prog, seen, lambda f: in_scope(f, prog), C14_LOOP_EXCEPTIONS, CUSTOM_ITER_OK)
     ctx.floor("c14.loop", "loops classified", nloops, 20)
     for comp in recursion_cycles(ctx.cg, seen):
